@@ -188,8 +188,47 @@ class Gen:
         self.scopes.pop()
         return out
 
+    def const_cond(self, depth, in_loop):
+        """`var k = 2; [var k2 = k + 1;] if (k2 == 3) {..} else {..}`: a branch whose condition constant
+        propagation folds, fed by locals directly and through another local. In most instances the
+        feeding locals are invisible to the rest of the generator, so the (folded) branch decision is
+        the ONLY effect they reach."""
+        r = self.r
+        self.features.add("const-cond")
+        self.n += 1
+        k = "k%d" % self.n
+        v0 = r.choice([0, 1, 2, 3])
+        pre = [S("decl", k, [], ("num", v0))]
+        names, val = [k], v0
+        for _ in range(r.choice([0, 0, 1, 1, 2])):
+            self.features.add("const-cond-transitive")
+            self.n += 1
+            k2 = "k%d" % self.n
+            op, c = r.choice(["+", "*", "-"]), r.choice([1, 2])
+            pre.append(S("decl", k2, [], ("bin", op, ("var", names[-1]), ("num", c))))
+            val = {"+": val + c, "*": val * c, "-": val - c}[op]
+            names.append(k2)
+        if len(names) == 1:
+            self.features.add("const-cond-direct")
+        cond = ("bin", r.choice(["==", "!=", "<", ">=", ">", "=="]), ("var", names[-1]), ("num", r.choice([val % P, val % P, (val + 1) % P, 0, 1])))
+        if r.random() < 0.15:
+            cond = ("bin", r.choice(["&&", "||"]), cond, ("bin", "==", ("var", names[0]), ("num", r.choice([v0, v0 + 1]))))
+        if r.random() < 0.1:
+            cond = ("un", "!", cond)
+        if r.random() < 0.35:
+            self.features.add("const-cond-visible")
+            for nm in names:
+                self.declare(nm, "s")
+        else:
+            self.features.add("const-cond-only-sink")
+        th = self.body(depth - 1, r.randrange(1, 3), in_loop)
+        el = self.body(depth - 1, r.randrange(1, 3), in_loop) if r.random() < 0.7 else None
+        return pre + [S("if", cond, th, el)]
+
     def stmt(self, depth, in_loop):
         r = self.r
+        if depth > 0 and r.random() < 0.05:
+            return self.const_cond(depth, in_loop)
         c = r.random()
         sc = [x for x in self.scalars() if x not in self.protected]
         if c < 0.22 or not sc:
